@@ -41,6 +41,21 @@ CHECKS = {
             "Generated systems are transformed by simplify_expressions / replace_anonymous_inputs_with_zero and compared with the original function by function under all (<= 14 bits) or sampled assignments, by 4-step lock-step reference simulation, by symbol scans and by name checks. Sampling, not proof.",
             "Trusts refeval/refsim.",
             "DESIGN.md 5/C11"),
+    "C16": ("exploration",
+            "proptest round-trip printer->reader over generated witnesses and witness streams",
+            "Generated complete witnesses (wide bit-vectors, arrays with duplicate/zero entries, sparse and dense) and streams of 1-5 witnesses are printed with witness_to_string and read back with parse_witness / parse_witnesses for n' below/at/above the number written; all fields are compared. Sampling, not proof.",
+            "Shapes the printer cannot express (no failed property, array without recorded index, array inputs, index width > 64) are excluded by construction and counted.",
+            "DESIGN.md 5/C16"),
+    "C19": ("exploration",
+            "exhaustive enumeration of width/sign instantiations up to a bound + condition-directed sampling; oracle: reference evaluation of both pattern sides",
+            "Every shipped rewrite rule is instantiated for all width assignments up to 5 (7 thorough) and both signs, plus condition-directed samples up to 48 bits; where the side condition holds both lowered sides must agree on all (<= 12/16 bits) or 4096 sampled operand values. to_arith/from_arith round-trips are compared by the reference evaluator. Exhaustive within the stated bounds, sampling above.",
+            "Trusts refeval and the harness' pattern instantiation (same scheme as the repository's manual checker).",
+            "DESIGN.md 5/C19"),
+    "C20": ("exploration",
+            "stateful proptest over operation histories; invariant (partition) + shadow-denotation oracle evaluated exhaustively over all valuations",
+            "Histories of new/apply_bin_op/apply_ite/coalesce/import_into_guard/expr_to_guard are run on the real ValueSummary; through the verif-hooks accessors every valuation of the underlying symbols (exhaustive) must enable exactly one entry whose value equals the harness' shadow denotation. Sampling of histories, exhaustive over valuations.",
+            "Trusts boolean_expression's BDD::evaluate and refeval; needs the add-only verif-hooks feature of patronus-dse.",
+            "DESIGN.md 5/C20"),
     "C17": ("exploration",
             "proptest over generated systems x roots; syntactic closure oracle + metamorphic perturbation in the reference simulator",
             "For every root and the three cone variants the result is checked to contain only inputs/states, to be inside the harness' own dependency closure (tightness) and to be sufficient: 16 pairs of executions agreeing on the cone and differing elsewhere give the root the same value. Sampling, not proof.",
@@ -96,7 +111,7 @@ def main():
             "guard": "cargo feature verif-hooks (patronus-dse)",
             "enable": "the harness crate /verif/harness depends on /repo/patronus-dse by path with features=[\"verif-hooks\"]; /repo's own workspace never enables it",
             "baseline_off_cmd": "cd /repo && cargo test --workspace --no-fail-fast --offline",
-            "source_commits": [],
+            "source_commits": ["dac8f5e"],
             "add_only": True,
         },
         "engines": [
